@@ -1,3 +1,347 @@
-//! Solver harnesses mounted into rs-matter/src/tlv/read.rs
+//! C16 - decoder safety and length-in-bounds harnesses, mounted into rs-matter/src/tlv/read.rs.
+//!
+//! P5: every public accessor, on EVERY byte string up to the bound, returns Ok or Err - the
+//! compiled code's own panic / overflow / bounds / unwinding checks are the assertions, plus
+//! "what comes back lies inside the input".
 #![allow(unused_imports, dead_code)]
 use super::*;
+use crate::verif_support::*;
+use crate::{vassert, vcover};
+
+/// `s` is a sub-slice of `whole` (pointer range check).
+fn within(whole: &[u8], s: &[u8]) -> bool {
+    if s.is_empty() {
+        return true;
+    }
+    // same-allocation pointer difference (Kani checks the precondition of `offset_from`, so a
+    // slice pointing anywhere else is reported as well)
+    let off = unsafe { s.as_ptr().offset_from(whole.as_ptr()) };
+    off >= 0 && (off as usize) + s.len() <= whole.len()
+}
+
+const TAG_SIZE: [usize; 8] = [0, 1, 2, 4, 2, 4, 6, 8];
+
+/// Reference decoder for integers, written from the TLV specification (control byte = tag form
+/// in bits 7..5, element type in bits 4..0; types 0-3 signed 1/2/4/8 bytes, 4-7 unsigned;
+/// little endian): Some((value bits, width, signed)) iff `b` starts with a complete integer.
+fn ref_int(b: &[u8]) -> Option<(u64, usize, bool)> {
+    if b.is_empty() {
+        return None;
+    }
+    let vt = b[0] & 0x1f;
+    if vt > 7 {
+        return None;
+    }
+    let ts = TAG_SIZE[(b[0] >> 5) as usize];
+    let w = 1usize << (vt & 3);
+    if b.len() < 1 + ts + w {
+        return None;
+    }
+    let mut v: u64 = 0;
+    let mut i = w;
+    while i > 0 {
+        v = (v << 8) | b[1 + ts + i - 1] as u64;
+        i -= 1;
+    }
+    Some((v, w, vt < 4))
+}
+fn sign_extend(v: u64, w: usize) -> i64 {
+    match w {
+        1 => v as u8 as i8 as i64,
+        2 => v as u16 as i16 as i64,
+        4 => v as u32 as i32 as i64,
+        _ => v as i64,
+    }
+}
+
+/// Element header arithmetic over ALL 10-byte prefixes (control, tag up to 8 bytes / length
+/// field up to 8 bytes incl. the value 2^64-1): `len()` must not overflow.
+#[cfg_attr(kani, kani::proof)]
+#[cfg_attr(not(kani), test)]
+fn c16_q_len_header_arith_10() {
+    let b: [u8; 10] = any_bytes::<10>();
+    let s = TLVSequence(&b);
+    let r = s.len();
+    vcover!(r.is_ok());
+    vcover!(r.is_err());
+    if let Ok(c) = s.control() {
+        // a string whose (in-range) length field says more than the buffer holds
+        vcover!(c.value_type.variable_size_len() == 8);
+    }
+}
+
+/// The same for 18-byte prefixes: 8-byte tag AND 8-byte length field.
+#[cfg_attr(kani, kani::proof)]
+#[cfg_attr(not(kani), test)]
+fn c16_q_len_header_arith_18() {
+    let b: [u8; 18] = any_bytes::<18>();
+    let s = TLVSequence(&b);
+    let r = s.len();
+    vcover!(r.is_ok());
+}
+
+/// Scalar accessors on every byte string of length <= 10 (symbolic length).
+#[cfg_attr(kani, kani::proof)]
+#[cfg_attr(kani, kani::unwind(12))]
+#[cfg_attr(not(kani), test)]
+fn c16_q_scalar_accessors_10() {
+    let b: [u8; 10] = any_bytes::<10>();
+    let len = any_usize();
+    assume(len <= 10);
+    let e = TLVElement::new(&b[..len]);
+    let _ = e.control();
+    let _ = e.tag();
+    let _ = e.i8();
+    let _ = e.u8();
+    let _ = e.i16();
+    let _ = e.u16();
+    let _ = e.i32();
+    let _ = e.u32();
+    let ri = e.i64();
+    let r = e.u64();
+    // differential oracle: the widest accessors agree with the reference decoder on EVERY input
+    match ref_int(&b[..len]) {
+        Some((v, _w, false)) => {
+            vcover!(_w == 8);
+            vassert!(r.ok() == Some(v), "ROLE:unsigned-decode-equals-reference");
+            vassert!(ri.is_err(), "ROLE:unsigned-element-is-not-signed");
+        }
+        Some((v, w, true)) => {
+            vcover!(w == 2);
+            vassert!(ri.ok() == Some(sign_extend(v, w)), "ROLE:signed-decode-equals-reference");
+            vassert!(r.is_err(), "ROLE:signed-element-is-not-unsigned");
+        }
+        None => {
+            vassert!(r.is_err() && ri.is_err(), "ROLE:non-integer-or-truncated-input-rejected");
+        }
+    }
+    // element length: header arithmetic against the reference
+    if let Some((_, w, _)) = ref_int(&b[..len]) {
+        let ts = TAG_SIZE[(b[0] >> 5) as usize];
+        vassert!(TLVSequence(&b[..len]).len().ok() == Some(1 + ts + w), "ROLE:integer-element-length-equals-reference");
+    }
+    let r = e.u64();
+    let _ = e.f32();
+    let _ = e.f64();
+    let _ = e.bool();
+    let _ = e.null();
+    let _ = e.is_container();
+    let _ = e.confirm_anon();
+    let _ = e.ctx();
+    let _ = e.try_ctx();
+    if let Ok(s) = e.str() {
+        vcover!(s.len() == 3);
+        vassert!(within(&b[..len], s), "ROLE:string-value-within-input");
+    }
+    if let Ok(s) = e.octets() {
+        vassert!(within(&b[..len], s), "ROLE:string-value-within-input");
+    }
+    vcover!(r.is_ok());
+    vcover!(len == 0);
+}
+
+/// `raw_value` / `container_len` on every byte string <= 6 (quick): whatever length is reported
+/// lies within the input.
+fn walk_len<const N: usize>() {
+    let b: [u8; N] = any_bytes::<N>();
+    let len = any_usize();
+    assume(len <= N);
+    let s = TLVSequence(&b[..len]);
+    if let Ok(l) = s.container_len() {
+        vcover!(l == len && len > 2);
+        vassert!(l <= len, "ROLE:container-len-within-input");
+    }
+    let e = TLVElement::new(&b[..len]);
+    if let Ok(v) = e.raw_value() {
+        vassert!(within(&b[..len], v), "ROLE:raw-value-within-input");
+    }
+}
+
+#[cfg_attr(kani, kani::proof)]
+#[cfg_attr(kani, kani::unwind(7))]
+#[cfg_attr(not(kani), test)]
+fn c16_q_container_len_5() {
+    walk_len::<5>();
+}
+
+#[cfg_attr(kani, kani::proof)]
+#[cfg_attr(kani, kani::unwind(9))]
+#[cfg_attr(not(kani), test)]
+fn c16_t_container_len_7() {
+    walk_len::<7>();
+}
+
+#[cfg_attr(kani, kani::proof)]
+#[cfg_attr(kani, kani::unwind(12))]
+#[cfg_attr(not(kani), test)]
+fn c16_t_container_len_10() {
+    walk_len::<10>();
+}
+
+/// Element iterator over a container: terminates within len+1 steps, every element handed out
+/// is a sub-slice of the input.
+fn walk_iter<const N: usize>() {
+    let b: [u8; N] = any_bytes::<N>();
+    let len = any_usize();
+    assume(len <= N);
+    let e = TLVElement::new(&b[..len]);
+    if let Ok(seq) = e.container() {
+        let mut n = 0usize;
+        let mut it = seq.iter();
+        loop {
+            match it.next() {
+                None => break,
+                Some(Err(_)) => break,
+                Some(Ok(el)) => {
+                    vassert!(within(&b[..len], el.raw_data()), "ROLE:iter-element-within-input");
+                    vassert!(!el.is_empty(), "ROLE:iter-element-non-empty");
+                    n += 1;
+                    vassert!(n <= len, "ROLE:iter-terminates");
+                }
+            }
+        }
+        vcover!(n >= 1);
+    }
+}
+
+#[cfg_attr(kani, kani::proof)]
+#[cfg_attr(kani, kani::unwind(6))]
+#[cfg_attr(not(kani), test)]
+fn c16_q_iter_4() {
+    walk_iter::<4>();
+}
+
+#[cfg_attr(kani, kani::proof)]
+#[cfg_attr(kani, kani::unwind(8))]
+#[cfg_attr(not(kani), test)]
+fn c16_t_iter_6() {
+    walk_iter::<6>();
+}
+
+#[cfg_attr(kani, kani::proof)]
+#[cfg_attr(kani, kani::unwind(11))]
+#[cfg_attr(not(kani), test)]
+fn c16_t_iter_9() {
+    walk_iter::<9>();
+}
+
+/// The flattening (tag, value) iterator `tlv_iter` over an arbitrary sequence.
+fn walk_tlv_iter<const N: usize>() {
+    let b: [u8; N] = any_bytes::<N>();
+    let len = any_usize();
+    assume(len <= N);
+    let seq = TLVSequence(&b[..len]);
+    let mut it = seq.tlv_iter();
+    let mut n = 0usize;
+    loop {
+        match it.next() {
+            None => break,
+            Some(Err(_)) => break,
+            Some(Ok(_)) => {
+                n += 1;
+                vassert!(n <= len, "ROLE:tlv-iter-terminates");
+            }
+        }
+    }
+    vcover!(n >= 1);
+}
+
+#[cfg_attr(kani, kani::proof)]
+#[cfg_attr(kani, kani::unwind(6))]
+#[cfg_attr(kani, kani::stub(core::str::from_utf8, stub_from_utf8))]
+#[cfg_attr(not(kani), test)]
+fn c16_q_tlv_iter_4() {
+    walk_tlv_iter::<4>();
+}
+
+#[cfg_attr(kani, kani::proof)]
+#[cfg_attr(kani, kani::unwind(8))]
+#[cfg_attr(kani, kani::stub(core::str::from_utf8, stub_from_utf8))]
+#[cfg_attr(not(kani), test)]
+fn c16_t_tlv_iter_6() {
+    walk_tlv_iter::<6>();
+}
+
+/// The flattening iterator on well-formed skeletons with symbolic scalar payloads: it yields
+/// start / members / end markers of nested containers in order, and writing the yielded TLVs
+/// back reproduces the bytes ("re-encoding a decoded element reproduces its bytes", iterator
+/// flavour).
+#[cfg_attr(kani, kani::proof)]
+#[cfg_attr(kani, kani::unwind(12))]
+#[cfg_attr(kani, kani::stub(core::str::from_utf8, stub_from_utf8))]
+#[cfg_attr(not(kani), test)]
+fn c16_q_tlv_iter_nested_skeleton() {
+    use crate::tlv::{TLVWrite, ToTLV};
+    use crate::utils::storage::WriteBuf;
+    let (v1, v2, t) = (any_u8(), any_u8(), any_u8());
+    // struct { list(ctx t) { u8 v1 }, u8(ctx 2) v2 }
+    let b = [0x15u8, 0x37, t, 0x04, v1, 0x18, 0x24, 0x02, v2, 0x18];
+    let e = TLVElement::new(&b);
+    let mut out = [0u8; 12];
+    let mut wb = WriteBuf::new(&mut out);
+    let mut n = 0;
+    let mut depth: i32 = 0;
+    for x in e.tlv_iter(TLVTag::Anonymous) {
+        match x {
+            Ok(tlv) => {
+                if tlv.value.value_type().is_container() {
+                    depth += 1;
+                } else if tlv.value.value_type().is_container_end() {
+                    depth -= 1;
+                }
+                vassert!(depth >= 0, "ROLE:tlv-iter-container-markers-balanced");
+                if wb.tlv(&tlv.tag, &tlv.value).is_err() {
+                    vassert!(false, "ROLE:tlv-iter-output-fits-the-original-size");
+                }
+            }
+            Err(_) => vassert!(false, "ROLE:tlv-iter-on-well-formed-input-yields-no-error"),
+        }
+        n += 1;
+        vassert!(n <= 6, "ROLE:tlv-iter-terminates");
+    }
+    vassert!(n == 6 && depth == 0, "ROLE:tlv-iter-yields-every-element-and-marker");
+    let w = wb.as_slice();
+    vassert!(w.len() == 10, "ROLE:reencode-same-length");
+    let mut i = 0;
+    while i < 10 {
+        vassert!(w[i] == b[i], "ROLE:reencode-same-bytes");
+        i += 1;
+    }
+}
+
+/// find_ctx / scan_ctx over a container body.
+#[cfg_attr(kani, kani::proof)]
+#[cfg_attr(kani, kani::unwind(6))]
+#[cfg_attr(not(kani), test)]
+fn c16_q_find_ctx_4() {
+    let b: [u8; 4] = any_bytes::<4>();
+    let len = any_usize();
+    assume(len <= 4);
+    let seq = TLVSequence(&b[..len]);
+    let c = any_u8();
+    if let Ok(e) = seq.find_ctx(c) {
+        if !e.is_empty() {
+            vcover!(true);
+            vassert!(within(&b[..len], e.raw_data()), "ROLE:found-element-within-input");
+            vassert!(e.ctx().ok() == Some(c), "ROLE:found-element-has-requested-tag");
+        }
+    }
+    let mut s2 = TLVSequence(&b[..len]);
+    if let Ok(e) = s2.scan_ctx(c) {
+        if !e.is_empty() {
+            vassert!(e.ctx().ok() == Some(c), "ROLE:found-element-has-requested-tag");
+        }
+    }
+}
+
+/// `core::str::from_utf8` is std's validator (not the code under check; minutes in CBMC):
+/// symbolic Ok/Err.
+#[cfg(kani)]
+pub(crate) fn stub_from_utf8(v: &[u8]) -> Result<&str, core::str::Utf8Error> {
+    if any_bool() {
+        Ok(unsafe { core::str::from_utf8_unchecked(v) })
+    } else {
+        // Utf8Error has private fields; all-zero (valid_up_to = 0, error_len = None) is a valid value
+        Err(unsafe { core::mem::zeroed() })
+    }
+}
